@@ -198,8 +198,8 @@ structure Entry where
 
 /-- One pending operation of the shared `pool.batch`. -/
 inductive BOp where
-  | putTx (h : Nat) (tx : Option Tx)   -- executed record for hash `h` holding the marshalled tx
-  | putGate (n : Nat)
+  | putTx (h : Nat) (tx : Option Tx) (z : Nat)  -- executed record for hash `h` (marshalled tx, `z` bytes of JSON)
+  | putGate (n : Nat)                           -- 8 bytes
   deriving DecidableEq, Repr
 
 structure Pool where
@@ -208,13 +208,19 @@ structure Pool where
   executed : List (Nat × Option Tx)    -- LevelDB "tx": hash ↦ record
   gate : Nat                           -- value under key "tx" (0 = absent)
   batch : List BOp
+  evicted : List Nat := []             -- `evictedTxs` LRU (hashicorp/golang-lru), most recently used first
+  detached : Bool := false             -- `Clear()` ran: `executed` was replaced, `batch` still writes to the old store
+  shared : Bool := false               -- `executed` is the prefixed store "tx" of the shared LevelDB (after `Clear()`)
   deriving Repr
 
-def Pool.empty (limit : Nat) : Pool := ⟨limit, [], [], 0, []⟩
+def Pool.empty (limit : Nat) : Pool := { limit := limit, pending := [], executed := [], gate := 0, batch := [] }
 
 def rcvTxPoolSize : Nat := 50000
 def txCountPerBlock : Nat := 200
 def expiredRing : Nat := 5
+def txCacheSize : Nat := 1000
+/-- `100*1024`: `MarkExecuted` writes the batch inside its loop once `ValueSize()` exceeds this. -/
+def batchWriteThreshold : Nat := 102400
 
 def Pool.hashes (s : Pool) : List Nat := s.pending.map (fun e => e.tx.hash)
 def Pool.txs (s : Pool) : List Tx := s.pending.map (fun e => e.tx)
@@ -256,13 +262,21 @@ def execPut (ex : List (Nat × Option Tx)) (h : Nat) (v : Option Tx) : List (Nat
 def execDel (ex : List (Nat × Option Tx)) (h : Nat) : List (Nat × Option Tx) :=
   ex.filter (fun r => r.1 != h)
 
+/-- One record of a physical batch write. After `Clear()` the batch is still bound to the store that
+nobody reads any more: its writes are invisible. -/
 def applyBOp (s : Pool) : BOp → Pool
-  | .putTx h v => { s with executed := execPut s.executed h v }
-  | .putGate n => { s with gate := n }
+  | .putTx h v _ => if s.detached then s else { s with executed := execPut s.executed h v }
+  | .putGate n => if s.detached then s else { s with gate := n }
 
 /-- `batch.Write(); batch.Reset()`. -/
 def Pool.flush (s : Pool) : Pool :=
   { (s.batch.foldl applyBOp s) with batch := [] }
+
+/-- `batch.ValueSize()`: bytes of values put since the last `Reset`. -/
+def bsize : List BOp → Nat
+  | [] => 0
+  | .putTx _ _ z :: r => z + bsize r
+  | .putGate _ :: r => 8 + bsize r
 
 /-- `findTxInList(txs, hash, receiptIndex)`. -/
 def findTx (txs : List Tx) (h : Nat) (i : Nat) : Option Tx :=
@@ -270,33 +284,80 @@ def findTx (txs : List Tx) (h : Nat) (i : Nat) : Option Tx :=
   | some t => if t.hash = h then some t else txs.find? (fun t => t.hash == h)
   | none => txs.find? (fun t => t.hash == h)
 
-/-- The receipt loop of `MarkExecuted`: batch after the loop, and whether
-`refreshGateNonce(nil)` panicked (receipt without transaction). -/
-def markReceipts (txs : List Tx) : List Nat → Nat → List BOp → List BOp × Bool
-  | [], _, b => (b, false)
-  | h :: hs, i, b =>
-    match findTx txs h i with
-    | none => (b ++ [.putTx h none], true)
-    | some t =>
-      let b1 := b ++ [.putTx h (some t)]
-      let b2 := if t.gate ≠ 0 then b1 ++ [.putGate t.gate] else b1
-      markReceipts txs hs (i + 1) b2
+/-- How a `MarkExecuted` call ended. -/
+inductive MarkRes where
+  | ok
+  | panic   -- receipt without transaction: nil dereference in `refreshGateNonce`
+  | crash   -- process death right before a physical batch write (write gate of the harness)
+  deriving DecidableEq, Repr
 
-/-- `TxPool.MarkExecuted(header, receipts, txs, evicted)`; `receipts` = the receipts' tx hashes.
-Second component: the call panicked. -/
-def Pool.markExecuted (s : Pool) (receipts : List Nat) (txs : List Tx) (evicted : List Nat) : Pool × Bool :=
-  if receipts = [] then (s.removeHashes evicted, false)
+/-- The receipt loop of `MarkExecuted`. `rs` = (receipt hash, byte size of its JSON record); `i` = receipt
+index; `ws` = number of records of each physical write done so far (newest first); `crashAt = some k`:
+the process dies right before the `k`-th physical write of this call. -/
+def markLoop (txs : List Tx) (crashAt : Option Nat) : List (Nat × Nat) → Nat → List Nat → Pool → Pool × List Nat × MarkRes
+  | [], _, ws, s => (s, ws, .ok)
+  | (h, z) :: rs, i, ws, s =>
+    match findTx txs h i with
+    | none => ({ s with batch := s.batch ++ [.putTx h none z] }, ws, .panic)
+    | some t =>
+      let s1 : Pool := { s with batch := s.batch ++ [.putTx h (some t) z] }
+      if bsize s1.batch > batchWriteThreshold then
+        if crashAt = some (ws.length + 1) then (s1, ws, .crash)
+        else markLoop txs crashAt rs (i + 1) (s1.batch.length :: ws) (s1.flush.refreshGate t)
+      else markLoop txs crashAt rs (i + 1) ws (s1.refreshGate t)
+
+/-- `lru.Cache.Add`: an existing key moves to the front, a new one may push out the oldest. -/
+def lruAdd (cap : Nat) (l : List Nat) (h : Nat) : List Nat :=
+  let l' := h :: l.filter (fun x => x != h)
+  if l'.length > cap then l'.dropLast else l'
+
+def lruRemove (l : List Nat) (h : Nat) : List Nat := l.filter (fun x => x != h)
+
+def Pool.evictAll (s : Pool) (hs : List Nat) : Pool :=
+  { s with evicted := hs.foldl (lruAdd txCacheSize) s.evicted }
+
+/-- `TxPool.MarkExecuted(header, receipts, txs, evicted)` in full: `rs` = the receipts' (tx hash, record size).
+Returns the state, the record counts of the physical writes (oldest first) and how the call ended. -/
+def Pool.markExecutedZ (s : Pool) (rs : List (Nat × Nat)) (txs : List Tx) (evicted : List Nat) (crashAt : Option Nat) :
+    Pool × List Nat × MarkRes :=
+  if rs = [] then ((s.evictAll evicted).removeHashes evicted, [], .ok)
   else
-    match markReceipts txs receipts 0 s.batch with
-    | (b, true) => ({ s with batch := b }, true)
-    | (b, false) => (({ s with batch := b } : Pool).flush.removeHashes (receipts ++ evicted), false)
+    match markLoop txs crashAt rs 0 [] s with
+    | (s1, ws, .ok) =>
+      if bsize s1.batch > 0 then
+        if crashAt = some (ws.length + 1) then (s1, ws.reverse, .crash)
+        else (((s1.flush).evictAll evicted).removeHashes (rs.map (·.1) ++ evicted), (s1.batch.length :: ws).reverse, .ok)
+      else ((s1.evictAll evicted).removeHashes (rs.map (·.1) ++ evicted), ws.reverse, .ok)
+    | (s1, ws, r) => (s1, ws.reverse, r)
+
+/-- `MarkExecuted` without a crash, record sizes not given (taken as 1 byte: a JSON record is never empty).
+The size-aware function agrees with it, for every choice of sizes, on everything but where inside the call
+the writes happen (`Proofs/PoolInv.markExecutedZ_ok`). Second component: the call panicked. -/
+def Pool.markExecuted (s : Pool) (receipts : List Nat) (txs : List Tx) (evicted : List Nat) : Pool × Bool :=
+  match s.markExecutedZ (receipts.map (fun h => (h, 1))) txs evicted none with
+  | (s', _, r) => (s', r != .ok)
 
 def Pool.delExec (s : Pool) (h : Nat) : Pool := { s with executed := execDel s.executed h }
 
-/-- `TxPool.UnMarkExecuted(block)` (`txs` = `block.Transactions`; the evicted list only touches
-the write-only LRU, which is not modelled). -/
+/-- `TxPool.UnMarkExecuted(block)`: `txs` = `block.Transactions`, `evicted` = `header.EvictedTxs`. -/
+def Pool.unmarkE (s : Pool) (txs : List Tx) (evicted : List Nat) : Pool :=
+  if txs = [] then s
+  else txs.foldl (fun s t => ((s.delExec t.hash).add t).1) { s with evicted := evicted.foldl lruRemove s.evicted }
+
+/-- The part of `UnMarkExecuted` the property is about (executed records deleted, transactions re-added). -/
 def Pool.unmark (s : Pool) (txs : List Tx) : Pool :=
   txs.foldl (fun s t => ((s.delExec t.hash).add t).1) s
+
+/-- `TxPool.Clear()`: `db.NewDatabase("tx")` (a prefixed view of the node's shared LevelDB) replaces `executed`.
+The first time this is an empty store, and the batch stays bound to the old one, so no record ever reaches
+what the pool reads. A later `Clear()` opens the same shared store again. The batch is reset, the container renewed. -/
+def Pool.clear (s : Pool) : Pool :=
+  if s.shared then { s with batch := [], pending := [], limit := rcvTxPoolSize }
+  else { s with executed := [], gate := 0, batch := [], pending := [], limit := rcvTxPoolSize, detached := true, shared := true }
+
+/-- Process restart of the pool (`VerifC05RestartTxPool`): everything in memory is gone, the store stays. -/
+def Pool.restart (s : Pool) : Pool :=
+  { s with pending := [], batch := [], evicted := [], limit := rcvTxPoolSize, detached := false }
 
 /-- `simpleContainer.growRing`. -/
 def Pool.expire (s : Pool) : Pool :=
